@@ -223,7 +223,22 @@ fn header_consistent(m: Metric, header: &[u8], vector: &[u8]) -> bool {
             let want = ((vector.len() * 8) as f64).sqrt();
             ((h0 as f64) - want).abs() <= want * 4.0 * (f32::EPSILON as f64)
         }
-        Metric::DotProduct => true,
+        Metric::DotProduct => {
+            // reference layout: [extra_dim, norm]. A leaf that no build has preprocessed yet carries (0, 0); after a build
+            // norm = (largest item norm)^2 for every item and extra_dim = sqrt(norm - |v|^2): extra_dim^2 + |v|^2 = norm
+            let h1 = f32::from_ne_bytes(header[4..8].try_into().unwrap());
+            if h0 == 0.0 && h1 == 0.0 {
+                return true;
+            }
+            let Ok(v) = decode::decode_vector(m, vector) else { return true };
+            let n2: f64 = v.iter().map(|x| (*x as f64) * (*x as f64)).sum();
+            if !n2.is_finite() || !h0.is_finite() || !h1.is_finite() || n2 > (f32::MAX as f64) / 8.0 || (h1 as f64) > (f32::MAX as f64) / 8.0 {
+                return true; // overflow zone: no claim
+            }
+            let lhs = (h0 as f64) * (h0 as f64) + n2;
+            let scale = lhs.max(h1 as f64).max(1e-30);
+            h0 >= 0.0 && (lhs - h1 as f64).abs() <= scale * (v.len() as f64 + 16.0) * 4.0 * (f32::EPSILON as f64)
+        }
     }
 }
 
